@@ -33,8 +33,14 @@ inductive TOp where
 def parseOp (j : Json) : Except String TOp := do
   let a ← j.getArr?
   match a.toList with
-  | [Json.str "save", t, n, i, r] =>
-    pure (.op (Op.save (← t.getStr?) (← optStr n) (← i.getNat?) (← r.getBool?)))
+  | [Json.str "save", t, n, i] =>
+    pure (.op (Op.save (← t.getStr?) (← optStr n) (← i.getNat?)))
+  | [Json.str "resave", rows] =>
+    let rs ← (← rows.getArr?).mapM (fun (r : Json) => do
+      match (← r.getArr?).toList with
+      | [t, n, i] => pure ((← t.getStr?), (← optStr n), (← i.getNat?))
+      | _ => throw "bad resave row")
+    pure (.op (Op.resave rs.toList))
   | [Json.str "pick", n, sc, d] => pure (.op (Op.pick (← n.getStr?) (parseScope (← sc.getStr?)) (← d.getNat?)))
   | [Json.str "range", n, sc] => pure (.range (← n.getStr?) (parseScope (← sc.getStr?)))
   | [Json.str "reset"] => pure (.op Op.reset)
